@@ -1,3 +1,4 @@
+mod alloc;
 mod cfi;
 mod gen;
 mod hist;
@@ -14,6 +15,9 @@ mod spec;
 mod thr;
 mod util;
 mod world;
+
+#[global_allocator]
+static GLOBAL: alloc::Counting = alloc::Counting;
 
 fn main() {
     let args: Vec<String> = std::env::args().collect();
@@ -61,6 +65,7 @@ fn main() {
         "pe" => pe::run(&tier, seed),
         "macho" => macho::run(&tier, seed),
         "ana" => macho::run_ana(&tier, seed),
+        "alloc" => alloc::run(&tier, seed),
         "mut" => mutate::run(&tier, seed, out.as_deref()),
         "mut-replay" => {
             let text = std::fs::read_to_string(out.as_deref().expect("--out <case file>")).expect("case file");
